@@ -494,8 +494,12 @@ where
         self: &'a mut Pin<&mut Self>,
         cx: &mut Context<'_>,
     ) -> Poll<Option<Result<(), ChannelError<C::Error>>>> {
-        while self.poll_ready(cx)?.is_pending() {
+        if self.poll_ready(cx)?.is_pending() {
+            // Flush once and ask again. If the transport is still not ready it has registered our
+            // waker, so return control to the executor: retrying within this poll would spin
+            // forever on a transport whose readiness does not depend on flushing.
             ready!(self.poll_flush(cx)?);
+            ready!(self.poll_ready(cx)?);
         }
         Poll::Ready(Some(Ok(())))
     }
